@@ -226,7 +226,13 @@ pub trait TypedIterable {
         let new_offset_next = (self.offset_next() as isize + shift) as usize;
         self.set_offset_next(new_offset_next);
         let section = self.current_section()?;
+        let offset = self.offset().ok_or(DSError::VoidRecord)?;
         let parsed_packet = self.parsed_packet_mut();
+        if let Some(offset_edns) = parsed_packet.offset_edns {
+            if offset < offset_edns {
+                parsed_packet.offset_edns = Some((offset_edns as isize + shift) as usize)
+            }
+        }
         if section == Section::NameServers
             || section == Section::Answer
             || section == Section::Question
